@@ -53,6 +53,10 @@ CHECKS["C03"] = dict(cat="model_checking", design="DESIGN.md §4 C03",
    text="TsSem.tla gives the generated TypeScript declarations a structural semantics (Inhabits: exact property sets, primitive kinds, null only where admitted, tuple lengths, literal sets through the const-object idiom, Kind/Data alternatives, brands, Record key spaces) and well-formedness of the environment (every mentioned name declared exactly once). The real TypeScript output of seeded random packages is parsed by a declaration parser (a syntax error is a violation), and TLC judges every JSON document that the compiled Go code emits for reflection-built values of every top-level type against the parsed declaration of that type.",
    note="Trusted: TLC; the TypeScript parser of the harness (no tsc here); the in-binary engine. Reading choices are listed in DESIGN.md §4 C03 (brands inhabited by their base, Record keys inside the key space, enum components hold members, omitempty/string options excluded). Two recorded findings are exercised by fixed witnesses.",
    tech="TLA+ semantics of the TypeScript type language (TsSem.tla) + trace validation (TraceTs.tla, environment carried as state) of real generator output against documents emitted by compiled Go code")
+CHECKS["C04"] = dict(cat="model_checking", design="DESIGN.md §4 C04, Appendix A.4",
+   text="PgSem.tla is the PostgreSQL semantics the property asks for, written as a TLA+ interpreter: three-valued logic, NULL propagation, jsonb_typeof, ->, ->>, #>>'{}', ::int, jsonb_array_length, bool_and over jsonb_each / jsonb_array_elements, IF / CASE / RETURN / := / DECLARE, calls between functions with fuel, CHECK passes unless FALSE. The real SQL output of seeded random packages (one jsonb column per top-level type) is parsed into ASTs by a PL/pgSQL parser; TLC runs the real validators, under that semantics, on the documents the compiled Go code emits for values of the column types (must pass), on single-point corruptions of them from the five listed classes built from the typed value tree (must not pass), and checks that every called validation function is defined.",
+   note="Trusted: TLC; PgSem.tla as the model of PostgreSQL (no server is installed; evaluation-order assumption recorded in the evidence); the PL/pgSQL parser and the corruptor of the harness (a corruption is only built when the harness re-encodes the emitted document exactly). An ERROR on a corrupted document counts as rejection.",
+   tech="TLA+ interpreter of the PL/pgSQL / jsonb fragment (PgSem.tla) run by TLC on the parsed real validators (TracePg.tla) against documents emitted by compiled Go code and their typed corruptions")
 NOT_APPLICABLE = {}
 ALL = ["C%02d" % i for i in range(1, 21)]
 
